@@ -3,6 +3,7 @@ import ColaVerif.Lemmas.CGExample
 import ColaVerif.Lemmas.CGInputs
 import ColaVerif.Lemmas.CGExample3
 import ColaVerif.Lemmas.CGResidual
+import ColaVerif.Lemmas.CGExampleBatch
 
 /-!
 # C12 — CG returns the Krylov-optimal iterate and honours its stopping contract (property theorems)
@@ -46,6 +47,10 @@ Round 2 (end of the file): `GuardsOffN` is DERIVED from the inputs.
   beyond HPD: `∃ k' ≤ k`).  `C12_mask_of_guards`: `GuardsOffN → MaskOffN`; the round-1 statement
   `C12_residual_true` (hypothesis `GuardsOffN`) is kept as a corollary of `C12_residual_true_mask`.
   `C12_residual_true_witness`: all of it on `tridiag(-1, 2, -1)`, `k = 3`.
+* Round 4: `C12_converged_column_witness` — the `k' < k` branch of `C12_optimal_any` is inhabited: batch
+  `[(1, 0, -1), e₀]` on `tridiag(-1, 2, -1)`, `max_iters = 2`: column 0 (an eigenvector) has residual exactly `0`
+  after one step and is frozen (`k' = 1`) while column 1 keeps the loop running (`k = 2`)
+  (helper lemmas: `Lemmas/CGExampleBatch.lean`).
 -/
 
 open CG
@@ -802,6 +807,43 @@ theorem C12_residual_true_witness :
       ← ex3_colState_true, ex3_colState_r le_rfl, exS3.2, norm3]
     norm_num
 
+/-- **witness for the `k' < k` branch of `C12_optimal_any`** (round 4): `A = tridiag(-1, 2, -1)` (3 × 3), the batch
+`B = [(1, 0, -1), e₀]`, `x0 = 0`, `max_iters = 2`, `tol = 1/10`, no preconditioner.  Column 0 is an eigenvector of `A`,
+so its residual is exactly `0 < 1e-40 ‖b‖` after ONE step; column 1 stays above its tolerance (`1, 1/2 > 1/5`) and keeps
+the shared loop running to the cap: `k = 2`.  The premises of `C12_optimal_any` hold for `j = 0` (first three
+conjuncts), and the index it speaks about is `k' = 1 < 2 = k` with the second disjunct (`‖b - A x‖ < 1e-40 ‖b‖`) true:
+the mask is off before step `1` only, the returned column is the first textbook iterate `(1/2, 0, -1/2)`, which solves
+the system exactly.  (`k' = k` cannot be chosen with the mask condition of `xOut_final`: `ε ‖b‖ ≤ ‖r₁‖ = 0` fails.) -/
+theorem C12_converged_column_witness :
+    exA3.PosDef ∧ PrecPosDef (none : Option (Matrix (Fin 3) (Fin 3) ℝ)) ∧ exB2 0 ≠ 0 ∧
+    (runBatchedCG (matArr exA3) (colsArr exB2) (colsArr exZ2) 2
+      (((1 / 10 : ℝ) : ℝ) : ℝ) ((none : Option (Matrix (Fin 3) (Fin 3) ℝ)).map matArr)).k = 2 ∧
+    ∃ k', k' = 1 ∧
+      k' < (runBatchedCG (matArr exA3) (colsArr exB2) (colsArr exZ2) 2
+        (((1 / 10 : ℝ) : ℝ) : ℝ) ((none : Option (Matrix (Fin 3) (Fin 3) ℝ)).map matArr)).k ∧
+      MaskOffN (Matrix.toEuclideanLin exA3) (precLin none) smallR (exB2 0) (exZ2 0) k' ∧
+      ¬ MaskOffN (Matrix.toEuclideanLin exA3) (precLin none) smallR (exB2 0) (exZ2 0) 2 ∧
+      ‖exB2 0 - Matrix.toEuclideanLin exA3
+        (xOut exA3 none exB2 exZ2 2 (((1 / 10 : ℝ) : ℝ) : ℝ) 0)‖ < smallR * ‖exB2 0‖ ∧
+      xOut exA3 none exB2 exZ2 2 (((1 / 10 : ℝ) : ℝ) : ℝ) 0 =
+        (cgSeq (Matrix.toEuclideanLin exA3) (precLin none) (exB2 0) (exZ2 0) k').x ∧
+      xOut exA3 none exB2 exZ2 2 (((1 / 10 : ℝ) : ℝ) : ℝ) 0 = !₂[1 / 2, 0, -1 / 2] := by
+  have hk : (runBatchedCG (matArr exA3) (colsArr exB2) (colsArr exZ2) 2
+      (RCLike.ofReal (1 / 10 : ℝ)) ((none : Option (Matrix (Fin 3) (Fin 3) ℝ)).map matArr)).k = 2 := by
+    rw [run_k]; exact exB_steps
+  obtain ⟨k', hk1, hlt, hmask, hres, hx, hval⟩ := exB_kprime
+  have hpos : 0 < smallR * ‖exbE‖ := mul_pos smallR_pos exbE_norm_pos
+  refine ⟨exA3_posDef, ex3_noprec, by rw [exB2_zero]; exact exbE_ne, hk, k', hk1, ?_, hmask, ?_, ?_, hx, hval⟩
+  · rw [show (((1 / 10 : ℝ) : ℝ) : ℝ) = RCLike.ofReal (1 / 10 : ℝ) from rfl, run_k]; exact hlt
+  · intro h2
+    have := h2 1 (by norm_num)
+    rw [exB2_zero, exZ2_apply, exE1, norm3] at this
+    norm_num at this
+    linarith
+  · rw [show (((1 / 10 : ℝ) : ℝ) : ℝ) = RCLike.ofReal (1 / 10 : ℝ) from rfl, hval, exbE_solves, exB2_zero,
+      sub_self, norm_zero]
+    exact hpos
+
 end exact
 
 #print axioms C12_cap
@@ -838,3 +880,4 @@ end exact
 #print axioms C12_residual_true_single
 #print axioms C12_residual_true_final
 #print axioms C12_residual_true_witness
+#print axioms C12_converged_column_witness
